@@ -198,7 +198,14 @@ func (c *fctx) callRoots(x *ssa.Call, result int, seen map[ssa.Value]bool) roots
 	res := rootset{}
 	if b, ok := x.Call.Value.(*ssa.Builtin); ok {
 		if b.Name() == "append" && len(x.Call.Args) > 0 {
-			res.add(c.roots(x.Call.Args[0], seen)) // the appended elements are copied
+			res.add(c.roots(x.Call.Args[0], seen))
+			// the appended elements are copied — which, for elements that themselves hold pointers
+			// or slices (a struct with a []byte field), copies the references, not what they refer to
+			if sl, ok := x.Type().Underlying().(*types.Slice); ok && pointerish(sl.Elem()) {
+				for _, a := range x.Call.Args[1:] {
+					res.add(c.roots(a, seen))
+				}
+			}
 		}
 		return res
 	}
